@@ -10,6 +10,10 @@ CHECKS = {
              note='Trusted: CPython integers, the harness two\'s complement decoder, the per-block reference functions in pbt/cat_arith.py (written from docstrings). Configurations rejected by a constructor are outside the domain.',
              ref='DESIGN.md 2/C07'),
 }
+CHECKS['C08'] = dict(tech='exhaustive truth-table enumeration + Hypothesis wide-width/arity sampling against docstring-derived truth-table functions',
+             text='Full truth tables of every accepted configuration below the width/arity bound; widths to 128 and arities to 9 sampled. Exploration: complete below the bound, sampled above it.',
+             note='Trusted: reference truth-table functions in pbt/cat_logic.py. One-hot selectors judged on one-hot/zero selects only; PriorityEncoder direction pinned by the existing unit test.',
+             ref='DESIGN.md 2/C08')
 NOT_APPLICABLE = {}
 
 def main():
